@@ -363,7 +363,8 @@ class Mid(Top):
         self.mid_attr = mid_attr
     @classmethod
     def _yatiml_sweeten(cls, node: yatiml.Node) -> None:
-        node.set_attribute('added_by_mid', 1)
+        # not idempotent: the name of the key it adds depends on how many keys there are
+        node.set_attribute('added_by_mid_{}'.format(len(node.yaml_node.value)), 1)
 
 class Plain(Mid):
     def __init__(self, top_attr: int, mid_attr: str, plain_attr: bool) -> None:
@@ -390,7 +391,7 @@ def deep_chains(ctx, yaml, yatiml):
     exec(CHAIN_SRC, ns)
     Top, Mid, Plain, Leaf = ns['Top'], ns['Mid'], ns['Plain'], ns['Leaf']
     hooks = {'Top': lambda d: OrderedDict((k.replace('_', '-'), v) for k, v in d.items()),
-             'Mid': lambda d: OrderedDict(list(d.items()) + [('added_by_mid', 1)]),
+             'Mid': lambda d: OrderedDict(list(d.items()) + [('added_by_mid_{}'.format(len(d)), 1)]),
              'Plain': lambda d: d,
              'Leaf': lambda d: OrderedDict(list(d.items()) + [('added_by_leaf', 2)])}
     values = [Top(1), Mid(1, 'm'), Plain(1, 'm', True), Leaf(1, 'm', False, 2.5)]
